@@ -40,7 +40,26 @@ def configOf (j : Json) : Config :=
 def iamAssigned : Bool := Nuts.Facts.C20.authStrictModeAssignments == ["config.Strictmode"]
 def callTime : Bool := Nuts.Facts.C20.checkRedirectReadsGlobalAtCallTime
 
-def showOutcome (op : String) (cfg : Config) : Outcome → String
+def iamSites : List String := ["ClientMetadata", "PresentationDefinition", "AuthorizationServerMetadata", "OpenIDConfiguration", "OpenIdCredentialIssuerMetadata",
+  "RequestObjectByGet", "RequestObjectByPost", "PostError", "PostAuthorizationResponse", "AccessToken", "AccessTokenDPoP", "VerifiableCredentials"]
+def iamEndpoints : List String := ["https://pub-verif.nl:1001/e", "http://pub-verif.nl:1003/e", "https://127.0.0.1:1001/e", "https://[::1]:1001/e", "https://localhost:1001/e",
+  "https://node.local:1001/e", "https://a.test:1001/e", "https://10.0.0.12:1002/e", "https://example.com:1001/e"]
+
+/-- from the regenerated inventory: does the OpenID4VP client's method validate its endpoint unconditionally, itself or
+    through the inner method it delegates to? -/
+def iamSiteChecked (site : String) : Bool :=
+  let m := if site == "AccessTokenDPoP" then "AccessToken" else site
+  let inv := Nuts.Facts.C20.iamMethodInventory
+  inv.contains s!"vp.{m}:unconditional" ||
+    inv.any fun e => (e.startsWith s!"vp.{m}:delegates:") &&
+      inv.contains s!"http.{(e.drop (s!"vp.{m}:delegates:").length).toString}:unconditional"
+
+def iamMatrix (cfg : Config) : String :=
+  String.join (iamSites.map fun site =>
+    site ++ ":" ++ String.join (iamEndpoints.map fun ep =>
+      iamCall tlds l2s iamAssigned cfg (iamSiteChecked site) (site == "AccessTokenDPoP") (bytesOf ep) ++ "/") ++ ",")
+
+def showOutcome (op : String) (matrix : Bool) (cfg : Config) : Outcome → String
   | .refuse e r => s!"{op} refuse:{e}:{r}"
   | .ok r =>
     let d := if r.dummyMeans then "registered" else "absent"
@@ -48,8 +67,9 @@ def showOutcome (op : String) (cfg : Config) : Outcome → String
     let e := if earlyClientFollowsHttp callTime cfg then "followed" else "refused"
     let h := iamEndpoint tlds l2s iamAssigned cfg (bytesOf "http://c.verif.test:1003/meta")
     let i := iamEndpoint tlds l2s iamAssigned cfg (bytesOf "https://127.0.0.1:1001/meta")
-    let vc := iamEndpoint tlds l2s false cfg (bytesOf "http://c.verif.test:1003/credential")   -- VerifiableCredentials has no endpoint check of its own
-    s!"{op} ok dummy={d} remotectx={c} clientstrict={r.clientStrict} earlyclient={e} iamhttp={h} iamip={i} iamsites=same iamvc={vc}"
+    let vc := iamCall tlds l2s iamAssigned cfg (iamSiteChecked "VerifiableCredentials") false (bytesOf "http://c.verif.test:1003/credential")
+    let mx := if matrix then " iammatrix=" ++ iamMatrix cfg else ""
+    s!"{op} ok dummy={d} remotectx={c} clientstrict={r.clientStrict} earlyclient={e} iamhttp={h} iamip={i} iamsites=same iamvc={vc}{mx}"
 
 def step (st : Unit) (j : Json) : Unit × List String :=
   let line : String :=
@@ -68,7 +88,7 @@ def step (st : Unit) (j : Json) : Unit × List String :=
       match load (configOf j) with
       | some (e, r) => s!"load refuse:{e}:{r}"
       | none => "load ok"
-    | "sys" => showOutcome "sys" (configOf j) (start tlds l2s (configOf j))
+    | "sys" => showOutcome "sys" (jBool j "iammatrix") (configOf j) (start tlds l2s (configOf j))
     | "ctx" =>
       if contextPasses (jBool j "strict") ((jStrs j "allow").map bytesOf) (unhx (jStr j "s")) then "ctx passed" else "ctx refused"
     | "flags" =>
